@@ -353,7 +353,7 @@ def run(tier, pid="C06"):
                 ("mt_mcF.cfg", {}),
                 ("mt_mcD3.cfg", {}),
                 ("mt_mcT3.cfg", dict(actions=["PushLeaf", "Combine", "Combine3"])),
-                ("mt_sim.cfg", dict(simulate=dict(num=1500, depth=16), seed=rep.seed + 1)),
+                ("mt_sim.cfg", dict(simulate=dict(num=400, depth=16), seed=rep.seed + 1)),
             ]
             nrandom, rdepth = 60000, 6
         for cfg, kw in jobs:
